@@ -133,6 +133,11 @@ def build_go():
                  cwd=REPO, env=GOENV)
     if rc != 0:
         raise BuildError("shakespeare does not build", out)
+    # the same program with the pause points compiled in (VERIF_POINTS steers schedules)
+    rc, out = sh(["go", "build", "-tags", "verif", "-overlay", ov, "-o", os.path.join(BUILD, "shakespeare-verif"), "."],
+                 cwd=REPO, env=GOENV)
+    if rc != 0:
+        raise BuildError("shakespeare does not build with -tags verif", out)
     return time.time() - t0
 
 
